@@ -609,9 +609,10 @@ class Provenance(MutableSequence[Expression]):
             )
             for d in expression_data
         ]
-        max_disjunctions = max(d.shape[0] for d in expression_data)
-        max_conjunctions = max(d.shape[1] for d in expression_data)
+        max_disjunctions = max(self._data.shape[1], max(d.shape[0] for d in expression_data))
+        max_conjunctions = max(self._data.shape[2], max(d.shape[1] for d in expression_data))
         self._data = _pad_array(self._data, shape=(self._data.shape[0], max_disjunctions, max_conjunctions, 2))
+        expression_data = [_pad_array(d, shape=(max_disjunctions, max_conjunctions, 2)) for d in expression_data]
         if isinstance(index, int):
             self._data[index] = expression_data[0]
         else:
